@@ -293,6 +293,9 @@ func RunCase(c *Case) error {
 			return fmt.Errorf("plan %s: %w", c.Plan.Kind, err)
 		}
 		if d := diffResults(ref, got); d != "" {
+			if l.malfWhy != "" {
+				d += "; " + l.malfWhy
+			}
 			return fmt.Errorf("plan %s: call results differ from the reference delivery: %s", c.Plan.Kind, d)
 		}
 		return nil
@@ -614,7 +617,10 @@ func enumerate(t *testing.T, test string, nstreams int, mk func(k int) *Case) {
 				var got []Result
 				if got, err = runClient(&c, cl, c.Plan.Cuts); err == nil {
 					if d := diffResults(refC, got); d != "" {
-						err = fmt.Errorf("call results differ from the reference delivery: %s", d)
+						if cl.malfWhy != "" {
+							d += "; " + cl.malfWhy
+						}
+						err = fmt.Errorf("call results differ from the reference delivery (one chunk per reply): %s", d)
 					}
 				}
 			} else {
